@@ -66,7 +66,45 @@ for label, kw in (("default", {}), ("True", {"enabled": True}), ("False", {"enab
     d_init = D.__init__
     D2 = dltype.dltyped_dataclass(**kw)(D)
     N2 = dltype.dltyped_namedtuple(**kw)(N)
+    # decorations that name a scope provider: "self" on a plain function / on a method, a provider object, a non-provider
+    class _Prov:
+        calls = 0
+
+        def get_dltype_scope(self):
+            type(self).calls += 1
+            return {"n": 5}
+
+    Xn = Annotated[np.ndarray, dltype.FloatTensor["a n"]]
+    provs = {}
+    for pname, parg, as_method in (("self_on_function", "self", False), ("self_on_method", "self", True), ("provider_object", _Prov(), False),
+                                   ("not_a_provider", object(), False)):
+        def h(x: Xn):
+            return None
+
+        def hm(self, x: Xn):
+            return None
+
+        target = hm if as_method else h
+        try:
+            w = dltype.dltyped(parg, **kw)(target)
+        except BaseException as e:  # noqa: BLE001
+            provs[pname] = {"decoration": type(e).__name__}
+            continue
+        rec = {"decoration": "identity" if w is target else "wrapped"}
+        inst = _Prov()
+        _Prov.calls = 0
+        for shape in ((2, 5), (2, 6)):
+            try:
+                (w(inst, mk(shape, "f32")) if as_method else w(mk(shape, "f32")))
+                rec[str(shape)] = "accept"
+            except dltype.DLTypeError as e:
+                rec[str(shape)] = type(e).__name__
+            except BaseException as e:  # noqa: BLE001
+                rec[str(shape)] = "OTHER " + type(e).__name__
+        rec["provider_consulted"] = _Prov.calls
+        provs[pname] = rec
     out[label] = {
+        "providers": provs,
         "fn_identity": g is f, "dc_identity": D2 is D and D2.__init__ is d_init, "nt_identity": N2 is N,
         "fn": verdict(g), "dc": verdict(lambda x, y: D2(x, y)), "nt": verdict(lambda x, y: N2(x, y)),
     }
